@@ -6,8 +6,8 @@ use futures_util::{
 use indexmap::IndexMap;
 
 use crate::{
-    ContextSelectionSet, Data, QueryPathNode, QueryPathSegment, Response, Result, ServerResult,
-    Value,
+    ContextSelectionSet, Data, IntrospectionMode, QueryPathNode, QueryPathSegment, Response,
+    Result, ServerError, ServerResult, Value,
     dynamic::{
         FieldValue, InputValue, ObjectAccessor, ResolverContext, Schema, SchemaError, TypeRef,
         resolve::resolve,
@@ -200,10 +200,28 @@ impl Subscription {
         streams: &mut Vec<BoxFieldStream<'a>>,
         root_value: &'a FieldValue<'static>,
     ) {
+        let introspection_only = ctx.schema_env.registry.introspection_mode
+            == IntrospectionMode::IntrospectionOnly
+            || ctx.query_env.introspection_mode == IntrospectionMode::IntrospectionOnly;
+
         for selection in &ctx.item.node.items {
             if let Selection::Field(field) = &selection.node
                 && let Some(field_def) = self.fields.get(field.node.name.node.as_str())
             {
+                if introspection_only {
+                    // same answer as the `EmptySubscription` the static schema substitutes
+                    streams.push(
+                        futures_util::stream::once(async {
+                            Response::from_errors(vec![ServerError::new(
+                                "Schema is not configured for subscription.",
+                                None,
+                            )])
+                        })
+                        .boxed(),
+                    );
+                    continue;
+                }
+
                 let schema = schema.clone();
                 let field_type = field_def.ty.clone();
                 let resolver_fn = field_def.resolver_fn.clone();
